@@ -308,7 +308,7 @@ func extract(f reflect.Value, t *schema.Type) *refcodec.Value {
 			} else {
 				v.Ticks = tm.UnixNano() / 100
 				if tm.UnixNano()%100 != 0 {
-					v.DateV = 2 // decoded dates must sit on the 100ns grid
+					v.DateV = 2                          // decoded dates must sit on the 100ns grid
 					v.Ticks = tm.UnixNano()/100 ^ 0x5555 // poison: never equal to an expected value
 				}
 				if tm.Location() != time.UTC {
